@@ -98,7 +98,7 @@ def case_strategy(draw, quick=True):
     desc0 = draw(sc.traj_desc(fdefs, n_range=n_range))
     # species fields that are required must be set -> traj_desc guarantees it
     ntraj = draw(st.integers(0, 5))
-    extend_at = draw(st.one_of(st.none(), st.integers(0, 4))) if draw(st.integers(0, 3)) == 0 else None
+    extend_at = draw(st.integers(0, max(ntraj - 1, 0))) if (ntraj and draw(st.integers(0, 3)) == 0) else None
     trajs = [desc0]
     for k in range(ntraj):
         trajs.append(draw(later_desc(fdefs, groups, desc0, n_range, extend=(extend_at == k))))
@@ -138,7 +138,7 @@ class _Checker:
         try:
             t = store[i]
         except Exception as e:  # noqa: BLE001
-            self.ctx.fail_exc(f'read.{stage}', e, self.case['layout'], self.case)
+            self.ctx.fail_exc(f'read.{stage}', e, '', self.case)
             return
         for name, dims, typ, kind, detail in sc.compare_traj(t, desc, fdefs, absent):
             disc = f'{dims}/{typ}' if kind in ('unset_not_none',) else dims
@@ -180,14 +180,14 @@ def body(ctx: core.Ctx, case: dict):
                     ext_refused = True
                     labels.add('extension_refused')
                     if len(store) != before:
-                        ctx.fail('extension.refused_but_changed', 'mismatch', 'TrajectoryStore.add', layout,
+                        ctx.fail('extension.refused_but_changed', 'mismatch', 'TrajectoryStore.add', '',
                                  f'add refused for a species outside the file but len changed {before}->{len(store)}', case)
                     continue
             else:
                 try:
                     idx = store.add(t)
                 except Exception as e:  # noqa: BLE001
-                    ctx.fail_exc('add', e, layout, case)
+                    ctx.fail_exc('add', e, '', case)
                     raise _Abort()
             if idx != len(model):
                 ctx.fail('add.index', 'mismatch', 'TrajectoryStore.add', layout,
@@ -236,7 +236,7 @@ def body(ctx: core.Ctx, case: dict):
                             # a species outside the first result's species: refusal allowed
                             labels.add('extension_refused')
                             return
-                        ctx.fail_exc('create_associated', e, layout, case)
+                        ctx.fail_exc('create_associated', e, '', case)
                         return
                 store.close()
                 store = TrajectoryStore.open(base_file=base, associated_files=assoc_paths)
@@ -245,7 +245,7 @@ def body(ctx: core.Ctx, case: dict):
         except core.PASS_THROUGH:
             raise
         except Exception as e:  # noqa: BLE001
-            ctx.fail_exc('create', e, layout, case)
+            ctx.fail_exc('create', e, '', case)
             return
 
         # read back in the writing session
@@ -353,7 +353,7 @@ def run(ctx: core.Ctx):
         'later trajectories keep species inside the species the first trajectory put in the same file, except the '
         'labelled extension class where a refusal that leaves the store unchanged is also accepted',
     ]
-    core.run_given(ctx, case_strategy(), lambda c: body(ctx, c), ctx.n(60, 600))
+    core.run_given(ctx, case_strategy(), lambda c: body(ctx, c), ctx.n(120, 900))
 
 
 def replay(ctx: core.Ctx, case):
